@@ -12,10 +12,10 @@ inside a cell and sorted-terminal order as the real code, for the three table ty
 
 * `firstSets`            — `first_sets` + `firsts`                        (table/mod.rs:1385-1458)
 * `prodRnLens`           — `production_rn_lengths`                        (:1286-1303)
-* `emptyFirst`           — `check_empty_sets`                             (:999-1013)
+* `emptyFirst`           — `check_empty_sets`                             (:1000-1014)
 * `closure`              — `LRState::closure`                             (:199-272)
 * `perNextSymbol`, `maxPrioOf` — `LRState::group_per_next_symbol`        (:276-294)
-* `newStates`            — `create_new_states`                            (:975-994)
+* `newStates`            — `create_new_states`                            (:976-995)
 * `stateEq`, `mergeState`— `LRState::eq`, `merge_state` (LALR union, Pager/Menhir weak compatibility) (:105-111, 620-694)
 * `calcStates`           — `calc_states` (state queue, merge-or-push, GOTO / SHIFT entries) (:528-613)
 * `propagate`            — `propagate_follows` (closure refresh + in-place inter-state propagation) (:701-751)
@@ -58,7 +58,6 @@ def siteMergeUnwrap : String := "merge_state: find(..).unwrap()"
 def sitePosUnderflow : String := "target_item.position - 1"
 def siteStates : String := "self.states[target_state]"
 def siteTerm : String := "terminals[term]"
-def siteTermPrio : String := "term.prio * 1000 + len (u32 overflow)"
 def siteResolveOther : String := "resolve: unexpected outcome"
 
 /-! ## `BTreeSet<SymbolIndex>` -/
@@ -547,10 +546,7 @@ def sortedOf (g : Grammar) (s : Settings) (cells : List (List Action)) : Res (Li
   match termDescs g ts with
   | none => .panic siteTerm
   | some descs =>
-    if decide (2 ≤ descs.length) && descs.any (fun d => decide (4294967296 ≤ Lex.key s.mostSpecific d)) then
-      .panic siteTermPrio
-    else
-      .ok ((Lex.withFlags s.mostSpecific (Lex.sortTerms s.mostSpecific descs)).map fun e => (e.1.idx, e.2))
+    .ok ((Lex.withFlags s.mostSpecific (Lex.sortTerms s.mostSpecific descs)).map fun e => (e.1.idx, e.2))
 
 def finishState (g : Grammar) (s : Settings) (rn : Option (Array Nat)) (st : State) : Res State :=
   if !followsInRange g rn st then .panic siteTerm
@@ -617,15 +613,10 @@ def auglOk (g : Grammar) : Bool :=
           | none => false)
        | _ => false)
 
-def termOk (tm : Terminal) : Bool :=
-  decide (tm.prio * 1000 + (match tm.recog with
-    | some (.str s) => s.utf8ByteSize
-    | _ => 0) < 4294967296)
-
 /-- STOP is terminal 0 and occurs in no production, nor does EMPTY; symbols are in range; left-hand sides are
     nonterminals; production 0 is the only production of AUG and is `AUG: start`; AUG and AUGL occur in
-    no right-hand side; AUGL (if any) has exactly one production, with one symbol; terminal priorities
-    do not overflow the `u32` sort key -/
+    no right-hand side; AUGL (if any) has exactly one production, with one symbol.  (No condition on the
+    terminals: the sort key of `sort_terminals` is the pair `(prio, string length)`, no arithmetic.) -/
 def gwf (g : Grammar) : Bool :=
   decide (0 < g.nterms) && g.terms.size == g.nterms &&
   decide (g.nterms ≤ g.emptyIdx) && decide (g.emptyIdx < g.nterms + g.nnonterms) &&
@@ -635,7 +626,6 @@ def gwf (g : Grammar) : Bool :=
    | some pr => pr.lhs == g.augIdx && pr.rhs == [g.startIdx]
    | none => false) &&
   Canon.prodsOf g g.augIdx == [0] &&
-  auglOk g &&
-  g.terms.toList.all termOk
+  auglOk g
 
 end Rustemo.Table
